@@ -6,6 +6,7 @@
 //! property on that input) or `NOT-REPRODUCED <name> <what was tried>`.  A witness never decides that a
 //! property HOLDS — that is the verifier's job — it only supplies concrete failing inputs for replay.
 mod c01;
+mod c01b;
 mod c02;
 mod c03;
 mod c13;
@@ -36,6 +37,7 @@ fn main() {
     let name = std::env::args().nth(1).unwrap_or_default();
     let mut all: Vec<W> = Vec::new();
     all.extend(c01::witnesses());
+    all.extend(c01b::witnesses());
     all.extend(c02::witnesses());
     all.extend(c03::witnesses());
     all.extend(c13::witnesses());
